@@ -357,7 +357,7 @@ async fn exec_body(nw: usize, cap: usize, mode: u64, codes: Vec<i64>) -> ExecOut
     }
     // the executor must report idle once the last task has finished
     let t0 = Instant::now();
-    while t0.elapsed() < Duration::from_millis(if out.stalled { 5 } else { 1000 }) {
+    while t0.elapsed() < Duration::from_millis(if out.stalled { 5 } else { 3000 }) {
         if ex.is_idle() { out.idle_reached = true; break; }
         tokio::time::sleep(Duration::from_micros(300)).await;
     }
@@ -587,6 +587,8 @@ fn obs_opt(r: &Option<Vec<i64>>) -> Vec<i64> {
     match r { Some(v) => { let mut o = vec![1]; o.extend_from_slice(v); o } None => vec![0] }
 }
 const HANG: Duration = Duration::from_secs(8);
+/// a limit of zero that makes a call wait for ever is detected faster
+fn hang_for(limit: usize) -> Duration { if limit == 0 { Duration::from_millis(700) } else { HANG } }
 
 fn rand_items(r: &mut Rng, n: usize, fail: u64) -> Vec<i64> {
     // fail: 0 = no failing item, 1 = exactly one somewhere, 2 = random values
@@ -604,7 +606,7 @@ fn pmap_case(cx: &mut Ctx, which: u64, rt: usize, max_fibers: usize, xs: &[i64],
     cx.sum.dist(&format!("pmap_len_vs_fibers={}", if xs.len() < max_fibers { "below" } else if xs.len() == max_fibers { "equal" } else { "above" }));
     let xv = xs.to_vec();
     let r = guarded(|| with_rt(rt, async move {
-        tokio::time::timeout(HANG, async move {
+        tokio::time::timeout(hang_for(max_fibers), async move {
             let f = move |x: i64| if panics { stage_p(x) } else { stage(x) };
             match which {
                 0 => {
@@ -627,13 +629,14 @@ fn pmap_case(cx: &mut Ctx, which: u64, rt: usize, max_fibers: usize, xs: &[i64],
             }
         }).await
     }));
-    let want = seq_map(xs, panics);
+    // a pool that admits no fiber at all must be refused at construction (an error, not a hang)
+    let want = if max_fibers == 0 && (which == 0 || which == 3) { None } else { seq_map(xs, panics) };
     match r {
         Err(p) => cx.sum.fail(cell, None, case, &format!("panicked: {}", p)),
-        Ok(Err(_)) => cx.sum.fail(cell, None, case, "did not return within 8 s"),
+        Ok(Err(_)) => cx.sum.fail(cell, None, case, "did not return (8 s; 0.7 s when the limit is 0)"),
         Ok(Ok(res)) => {
             let got = res.ok();
-            if !panics { cx.coq(2, 0, 0, xs, &obs_opt(&got), &case, force); }
+            if !panics && !(max_fibers == 0 && (which == 0 || which == 3)) { cx.coq(2, 0, 0, xs, &obs_opt(&got), &case, force); }
             if got != want {
                 cx.sum.fail(cell, None, case, &format!("returned {:?}, applying the function in input order gives {:?}", got, want));
             }
@@ -651,7 +654,7 @@ fn foreach_case(cx: &mut Ctx, rt: usize, max_fibers: usize, xs: &[i64]) {
     let items: Vec<(usize, i64)> = xs.iter().cloned().enumerate().collect();
     let v2 = visits.clone();
     let r = guarded(|| with_rt(rt, async move {
-        tokio::time::timeout(HANG, async move {
+        tokio::time::timeout(hang_for(max_fibers), async move {
             let pool = FiberPool::new(FiberPoolConfig { max_fibers, initial_workers: 1, max_workers: 2, queue_capacity: 16, idle_timeout: Duration::from_secs(1) })?;
             let res = pool.parallel_for_each(items, move |(i, x): (usize, i64)| { v2[i].fetch_add(1, Ordering::SeqCst); stage(x).map(|_| ()) }).await;
             // parallel_for_each returns at the first error; the other fibers are still owed their one execution
@@ -669,7 +672,7 @@ fn foreach_case(cx: &mut Ctx, rt: usize, max_fibers: usize, xs: &[i64]) {
     let want_ok = seq_map(xs, false).is_some();
     match r {
         Err(p) => cx.sum.fail(cell, None, case, &format!("panicked: {}", p)),
-        Ok(Err(_)) => cx.sum.fail(cell, None, case, "did not return within 8 s"),
+        Ok(Err(_)) => cx.sum.fail(cell, None, case, "did not return (8 s; 0.7 s when the limit is 0)"),
         Ok(Ok(Err(e))) => cx.sum.fail(cell, None, case, &format!("pool error {:?}", e)),
         Ok(Ok(Ok((ok, spawned, finished, active)))) => {
             let v: Vec<u32> = (0..n).map(|i| visits[i].load(Ordering::SeqCst)).collect();
@@ -689,7 +692,7 @@ fn reduce_case(cx: &mut Ctx, which: u64, rt: usize, mw: usize, xs: &[i64], force
     cx.sum.eval(cell, &format!("rd {} {} {} {:?}", which, rt, mw, xs), xs.len() >= 2);
     let items: Vec<Vec<i64>> = xs.iter().map(|&x| vec![x]).collect();
     let r = guarded(|| with_rt(rt, async move {
-        tokio::time::timeout(HANG, async move {
+        tokio::time::timeout(hang_for(mw), async move {
             // concatenation: associative with identity [], not commutative - any reordering or loss shows
             let f = |mut a: Vec<i64>, b: Vec<i64>| -> ZResult<Vec<i64>> {
                 if b.iter().any(|x| x.rem_euclid(16) == 13) { return Err(ZiporaError::invalid_data("reduce failed")); }
@@ -707,11 +710,11 @@ fn reduce_case(cx: &mut Ctx, which: u64, rt: usize, mw: usize, xs: &[i64], force
     let want: Option<Vec<i64>> = if xs.iter().any(|x| x.rem_euclid(16) == 13) { None } else { Some(xs.to_vec()) };
     match r {
         Err(p) => cx.sum.fail(cell, None, case, &format!("panicked: {}", p)),
-        Ok(Err(_)) => cx.sum.fail(cell, None, case, "did not return within 8 s"),
+        Ok(Err(_)) => cx.sum.fail(cell, None, case, "did not return (8 s; 0.7 s when the limit is 0)"),
         Ok(Ok(res)) => {
             let got = res.ok();
-            if which == 0 && mw > 0 {
-                let k = std::cmp::max(1, xs.len() / mw);
+            if which == 0 {
+                let k = std::cmp::max(1, xs.len() / mw.max(1));
                 cx.coq(3, k as u64, 0, xs, &obs_opt(&got), &case, force);
             }
             if got != want { cx.sum.fail(cell, None, case, &format!("returned {:?}, the sequential fold gives {:?}", got, want)); }
@@ -762,7 +765,7 @@ fn batch_case(cx: &mut Ctx, which: u64, enable_batching: bool, xs: &[i64], force
     let want = if which >= 3 { seq_map_slow(xs) } else { seq_map(xs, false) };
     match r {
         Err(p) => cx.sum.fail(cell, None, case, &format!("panicked: {}", p)),
-        Ok(Err(_)) => cx.sum.fail(cell, None, case, "did not return within 8 s"),
+        Ok(Err(_)) => cx.sum.fail(cell, None, case, "did not return (8 s; 0.7 s when the limit is 0)"),
         Ok(Ok(res)) => {
             let got = res.ok();
             if which < 3 { cx.coq(2, 0, 0, xs, &obs_opt(&got), &case, force); }
@@ -791,7 +794,7 @@ fn single_case(cx: &mut Ctx, xs: &[i64]) {
         let w2 = w1.and_then(|y| stage(y).ok());
         match r {
             Err(p) => cx.sum.fail(cell, None, case, &format!("panicked: {}", p)),
-            Ok(Err(_)) => cx.sum.fail(cell, None, case, "did not return within 8 s"),
+            Ok(Err(_)) => cx.sum.fail(cell, None, case, "did not return (8 s; 0.7 s when the limit is 0)"),
             Ok(Ok((a, b))) => {
                 if a != w1 { cx.sum.fail(cell, None, case, &format!("execute_single returned {:?}, want {:?}", a, w1)); }
                 else if b != w2 { cx.sum.fail(cell, None, case, &format!("execute_two_stage returned {:?}, want {:?}", b, w2)); }
@@ -809,7 +812,7 @@ fn stream_case(cx: &mut Ctx, rt: usize, nstages: usize, buffer: usize, slow: boo
     let xv = xs.to_vec();
     let n = xs.len();
     let r = guarded(|| with_rt(rt, async move {
-        tokio::time::timeout(HANG, async move {
+        tokio::time::timeout(hang_for(buffer), async move {
             let mut cfg = PipelineConfig::default();
             cfg.buffer_size = buffer;
             if slow { cfg.stage_timeout = Duration::from_millis(8); }
@@ -819,7 +822,7 @@ fn stream_case(cx: &mut Ctx, rt: usize, nstages: usize, buffer: usize, slow: boo
             } else {
                 Box::new(MapStage::new("s".to_string(), stage)) as Box<dyn PipelineStage<i64, i64>>
             }).collect();
-            let (itx, irx) = tokio::sync::mpsc::channel::<i64>(buffer.max(1));
+            let (itx, irx) = tokio::sync::mpsc::channel::<i64>(buffer.max(1)); // the harness's own input channel
             let (otx, mut orx) = tokio::sync::mpsc::channel::<i64>(n + 4);
             let feeder = tokio::spawn(async move { for x in xv { if itx.send(x).await.is_err() { break; } } });
             let res = p.execute_stream(stages, irx, otx).await;
@@ -843,7 +846,7 @@ fn stream_case(cx: &mut Ctx, rt: usize, nstages: usize, buffer: usize, slow: boo
     for &x in xs { match through(x) { Some(v) => want.push(v), None => { all_ok = false; break; } } }
     match r {
         Err(p) => cx.sum.fail(cell, None, case, &format!("panicked: {}", p)),
-        Ok(Err(_)) => cx.sum.fail(cell, None, case, "did not return within 8 s"),
+        Ok(Err(_)) => cx.sum.fail(cell, None, case, "did not return (8 s; 0.7 s when the limit is 0)"),
         Ok(Ok((ok, outs))) => {
             // the verdict, and the output of a successful run, are schedule-independent: compare with the model
             let mut obs: Vec<i64> = vec![if ok { 1 } else { 0 }];
@@ -885,7 +888,7 @@ fn collector_case(cx: &mut Ctx, maxb: usize, timeout_zero: bool, ops: &[i64], fo
     }));
     match r {
         Err(p) => cx.sum.fail(cell, None, case, &format!("panicked: {}", p)),
-        Ok(Err(_)) => cx.sum.fail(cell, None, case, "did not return within 8 s"),
+        Ok(Err(_)) => cx.sum.fail(cell, None, case, "did not return (8 s; 0.7 s when the limit is 0)"),
         Ok(Ok((batches, rest, tail))) => {
             let added: Vec<i64> = ops.iter().filter(|&&o| o >= 1000).map(|&o| o - 1000).collect();
             let mut flat: Vec<i64> = batches.iter().flat_map(|(_, b)| b.iter().cloned()).collect();
@@ -920,7 +923,7 @@ fn helper_case(cx: &mut Ctx, which: u64, rt: usize, limit: usize, xs: &[i64]) {
     let xv = xs.to_vec();
     let n = xs.len();
     let r = guarded(|| with_rt(rt, async move {
-        tokio::time::timeout(HANG, async move {
+        tokio::time::timeout(hang_for(limit), async move {
             match which {
                 0 => {
                     // later inputs finish earlier: completion order is the reverse of input order
@@ -971,7 +974,7 @@ fn helper_case(cx: &mut Ctx, which: u64, rt: usize, limit: usize, xs: &[i64]) {
     let want = if which == 6 { Some(xs.iter().map(|x| 3 * x + 1).collect()) } else { seq_map(xs, false) };
     match r {
         Err(p) => cx.sum.fail(cell, None, case, &format!("panicked: {}", p)),
-        Ok(Err(_)) => cx.sum.fail(cell, None, case, "did not return within 8 s"),
+        Ok(Err(_)) => cx.sum.fail(cell, None, case, "did not return (8 s; 0.7 s when the limit is 0)"),
         Ok(Ok(got)) => {
             if got != want { cx.sum.fail(cell, None, case, &format!("returned {:?}, applying the function in input order gives {:?}", got, want)); }
         }
@@ -1008,17 +1011,17 @@ fn run_one(cx: &mut Ctx, c: &Value) {
             let ops: Vec<i64> = ops.into_iter().filter(|&o| is_task_code(o)).collect();
             order_case(cx, u(&c["cap"], 8) as usize, &ops, true)
         }
-        "pmap" => pmap_case(cx, u(&c["which"], 0).min(3), u(&c["rt"], 0) as usize, u(&c["max_fibers"], 4).max(1) as usize, &ops, c["panics"].as_bool().unwrap_or(false), true),
+        "pmap" => pmap_case(cx, u(&c["which"], 0).min(3), u(&c["rt"], 0) as usize, u(&c["max_fibers"], 4) as usize, &ops, c["panics"].as_bool().unwrap_or(false), true),
         "foreach" => foreach_case(cx, u(&c["rt"], 0) as usize, u(&c["max_fibers"], 4).max(1) as usize, &ops),
-        "reduce" => reduce_case(cx, u(&c["which"], 0).min(1), u(&c["rt"], 0) as usize, u(&c["mw"], 2).max(1) as usize, &ops, true),
+        "reduce" => reduce_case(cx, u(&c["which"], 0).min(1), u(&c["rt"], 0) as usize, u(&c["mw"], 2) as usize, &ops, true),
         "process_batch" => batch_case(cx, u(&c["which"], 0).min(4), c["batching"].as_bool().unwrap_or(false), &ops, true),
         "single" => single_case(cx, &ops),
-        "stream" => stream_case(cx, u(&c["rt"], 0) as usize, u(&c["stages"], 1).max(1) as usize, u(&c["buffer"], 1).max(1) as usize, c["slow"].as_bool().unwrap_or(false), &ops),
+        "stream" => stream_case(cx, u(&c["rt"], 0) as usize, u(&c["stages"], 1).max(1) as usize, u(&c["buffer"], 1) as usize, c["slow"].as_bool().unwrap_or(false), &ops),
         "collector" => {
             let ops: Vec<i64> = ops.into_iter().filter(|&o| o >= 1000 || o == 1 || o == 2).collect();
             collector_case(cx, u(&c["maxb"], 2) as usize, c["tz"].as_bool().unwrap_or(false), &ops, true)
         }
-        "helper" => helper_case(cx, u(&c["which"], 0).min(6), u(&c["rt"], 0) as usize, u(&c["limit"], 1).max(1) as usize, &ops),
+        "helper" => helper_case(cx, u(&c["which"], 0).min(6), u(&c["rt"], 0) as usize, u(&c["limit"], 1) as usize, &ops),
         _ => {}
     }
 }
@@ -1044,7 +1047,7 @@ fn enumerate_queue(cx: &mut Ctx, len: usize, alphabet: &[i64], cap: usize, strid
 
 pub fn run(args: &Args) {
     let mut cx = Ctx {
-        sum: Summary::new("C18", "corpus; all WorkStealingQueue histories of <= 6 operations over push(prio 0/1, stealable or not)/pop_local/steal/balance + random histories around the capacity; the running executor with 1, 2, 3, 4 workers on current-thread and multi-thread runtimes, task counts around workers*capacity, around the global overflow and around the balance trigger (100 executed), mixed priorities/stealability/task behaviour (incl. tasks that submit children from inside a worker), workers busy / idle / idle for 120 ms when the tasks arrive, a second wave after a complete drain; executor histories through the paused-executor hook (all interleavings of submit/find_task/balance of small shape for 1 and 2 workers + random ones for 1..4 workers); parallel_map/for_each/reduce, process_batch, execute_stream, BatchCollector and the yield/aio helpers on vectors of length 0..40 with and without failing, panicking and timed-out items, concurrency limits around the input length. A case is non-trivial when it has >= 2 tasks/items (queue histories: >= 2 pushes and a steal or balance); distinct = distinct canonical case text"),
+        sum: Summary::new("C18", "corpus; all WorkStealingQueue histories of <= 6 operations over push(prio 0/1, stealable or not)/pop_local/steal/balance + random histories around the capacity; the running executor with 1, 2, 3, 4 workers on current-thread and multi-thread runtimes, task counts around workers*capacity, around the global overflow and around the balance trigger (100 executed), mixed priorities/stealability/task behaviour (incl. tasks that submit children from inside a worker), workers busy / idle / idle for 120 ms when the tasks arrive, a second wave after a complete drain; executor histories through the paused-executor hook (all interleavings of submit/find_task/balance of small shape for 1 and 2 workers + random ones for 1..4 workers); parallel_map/for_each/reduce, process_batch, execute_stream, BatchCollector and the yield/aio helpers on vectors of length 0..40 with and without failing, panicking and timed-out items, concurrency limits, batch sizes and yield intervals 0, 1, 2, around the input length and beyond. A case is non-trivial when it has >= 2 tasks/items (queue histories: >= 2 pushes and a steal or balance); distinct = distinct canonical case text"),
         shards: CoqShards::new(&header(), 300),
         budget: if args.thorough { [5000, 600, 1200, 1200, 1200, 600, 4000, 1200] } else { [400, 60, 150, 120, 120, 60, 400, 120] },
         used: [0; 8],
@@ -1246,8 +1249,9 @@ pub fn run(args: &Args) {
                 let mf = *r.pick(&[1usize, 2, n.max(2) - 1, n.max(1), n + 1]);
                 cx.rng = r;
                 for which in 0..4u64 { pmap_case(&mut cx, which, rt, mf.max(1), &xs, false, false); }
+                if n == 3 { pmap_case(&mut cx, 0, rt, 0, &xs, false, false); pmap_case(&mut cx, 3, rt, 0, &xs, false, false); }
                 foreach_case(&mut cx, rt, mf.max(1), &xs);
-                for &mw in &[1usize, 2, 3, n.max(2) - 1, n.max(1), n + 1, 100] { reduce_case(&mut cx, 0, rt, mw.max(1), &xs, false); }
+                for &mw in &[0usize, 1, 2, 3, n.max(2) - 1, n.max(1), n + 1, 100] { reduce_case(&mut cx, 0, rt, mw, &xs, false); }
                 reduce_case(&mut cx, 1, rt, 1, &xs, false);
                 if fail == 0 && n > 0 {
                     // a panicking item is a join error: it must surface as Err
@@ -1270,7 +1274,7 @@ pub fn run(args: &Args) {
                 cx.rng = r;
                 for which in 0..3u64 { for &b in &[false, true] { batch_case(&mut cx, which, b, &xs, false); } }
                 for &rt in &[0usize, 2] {
-                    for &(st, buf) in &[(1usize, 1usize), (2, 1), (3, 2), (2, 64)] { stream_case(&mut cx, rt, st, buf, false, &xs); }
+                    for &(st, buf) in &[(1usize, 1usize), (2, 1), (3, 2), (2, 64), (2, 0)] { stream_case(&mut cx, rt, st, buf, false, &xs); }
                 }
             }
         }
@@ -1314,8 +1318,8 @@ pub fn run(args: &Args) {
                 let rt = *r.pick(&[0usize, 2]);
                 cx.rng = r;
                 for which in 0..7u64 {
-                    for &limit in &[1usize, 2, n.max(1), n + 3] {
-                        if (which == 0 || which == 5) && limit != 2 && limit != n + 3 { continue; }
+                    for &limit in &[0usize, 1, 2, n.max(1), n + 3] {
+                        if (which == 0 || which == 5) && limit != 0 && limit != 2 && limit != n + 3 { continue; }
                         helper_case(&mut cx, which, rt, limit, &xs);
                     }
                 }
